@@ -249,13 +249,15 @@ theorem frag_second_pass_tokens (f2 : File) (hwf : f2.wf = true) :
   rw [h1, ← toksL_proj_false, hl, toksL_proj_false, items_toks_lexM]
 
 /-- FIXED POINT FOR COMMENT-FREE FILES. For every well-formed file of the fragment without comments
-    (nested sets / `rec` sets / lists / bindings / leaves with arbitrary whitespace, any depth; `File.cf`
-    is false for files with parentheses or function calls — the tree normaliser `File.norm` has not
-    been extended to them yet), the
+    (nested sets / `rec` sets / lists / bindings / parenthesised expressions / function calls / leaves
+    with arbitrary whitespace, any depth), the
     text the round trip writes is the flattening of the well-formed comment-free tree `File.norm f`
     — the round trip IS that tree normaliser (`file_rt`: one line break per item of a container
     that spans lines, blank lines kept as one, two-space indentation, values on their own line
-    keep the indentation read from their gap, one-line containers joined by single spaces) — and
+    keep the indentation read from their gap, one-line containers joined by single spaces; a
+    parenthesised value stays on the line of `(` or goes on its own line at the indentation read from
+    the gap, `)` stays or goes on its own line at the current indentation; function and argument are
+    separated by one space or a line break with the argument at the indentation read from the gap) — and
     the round trip of that tree writes the same text again (`File.norm` is idempotent). `File.norm f`
     is the tree tree-sitter returns for the output: compared with the real tree, node by node, on
     every comment-free sample of every run (`fragment_correspondence`), which is the parser-contract
@@ -285,6 +287,17 @@ example : wsSample.wf = true ∧ wsSample.cf = true ∧ wsSample.noLeadingWs = t
 example : wsSample.norm.flatten =
     "rec {\n\n  a =\n\n      [\n        1\n\n        [\n\n        ]\n      ];\n  b = { c = x; };\n\n}\n\n".toList := by
   decide
+
+/-- `f  (⏎⏎     g x⏎  )⏎⏎   [ (1) ]` -/
+def callSample : File :=
+  { items := .elem [] (.app (.app (.leaf .ident "f".toList) [] "  ".toList
+      (.paren (.elem "\n\n     ".toList (.app (.leaf .ident "g".toList) [] " ".toList (.leaf .ident "x".toList)) .nil) "\n  ".toList))
+      [] "\n\n   ".toList (.list (.elem " ".toList (.paren (.elem [] (.leaf .int "1".toList) .nil) []) .nil) " ".toList)) .nil,
+    endGap := [] }
+
+example : callSample.flatten = "f  (\n\n     g x\n  )\n\n   [ (1) ]".toList := by decide
+example : callSample.wf = true ∧ callSample.cf = true ∧ callSample.noLeadingWs = true := by decide
+example : callSample.norm.flatten = "f (\n\n     g x\n)\n\n   [ (1) ]".toList := by decide
 
 /-- fixed points of the model (line-level comments, canonical layout): decidable per file -/
 def isFixedPoint (f : File) : Bool := decide (f.roundtrip = .ok f.flatten)
